@@ -31,7 +31,11 @@ func (p *watPrinter) printType_func(typ *ast.TypeSection) {
 	fmt.Fprint(p.w, " (func")
 	if len(fnType.Params) > 0 {
 		for _, x := range fnType.Params {
-			fmt.Fprintf(p.w, " (param %v)", x.Type)
+			if x.Name != "" {
+				fmt.Fprintf(p.w, " (param %s %v)", watPrinter_identOrIndex(x.Name), x.Type)
+			} else {
+				fmt.Fprintf(p.w, " (param %v)", x.Type)
+			}
 		}
 	}
 	if len(fnType.Results) > 0 {
